@@ -21,7 +21,8 @@ def rand_constraints(rng, origin):
             elif k == "multiple_of" and origin != "float":
                 c[k] = rng.choice([1, 2, 3, 5, 10])
             elif k == "const":
-                c[k] = mk()
+                # (a bool const on an int type: equal to 1 / 0 but of another class, in the direction where the const is the subclass)
+                c[k] = mk() if (origin != "int" or rng.random() < 0.8) else rng.choice([True, False])
             elif k == "enum":
                 c[k] = [mk() for _ in range(rng.randint(1, 3))]
             elif k == "max_digits":
